@@ -41,6 +41,9 @@ above so that the baseline is exit 0):
       Close(true) loses the last item .................. exit 1  lost-on-flush:Close / delWriter, latest:mismatch
       coalesced publications alone do not arm the timer  exit 1  timer-flush-missing
       duplicate key not removed from latestPubs ........ exit 1  latest:older-publication, trace:latest:two-per-key
+      (seeded C13-2) unsubscribe: first delWriter site (under c.mu) removed, the later one skipped after a resubscribe
+                                                          exit 1  resub:old-publication-in-new-subscription:plain|pos
+                                                          (model: ChanWriterSub gen_witness.cfg Add; UnsubBegin; Resub; Add)
       timer identity check removed (`if true`) ......... exit 0  MISSED: needs the timer to expire while a size flush /
                                                           close holds the writer lock and the goroutine to pick tm.C; the
                                                           effect is a batch split early, which no C13 clause forbids
@@ -80,7 +83,7 @@ def c13(c):
     quick = c.tier == 'quick'
     c._specdir('ChanWriter')
     # the four TLC runs are independent: run them side by side (4 + 4 + 1 + 1 workers)
-    with ThreadPoolExecutor(max_workers=4) as ex:
+    with ThreadPoolExecutor(max_workers=6) as ex:
         # 1. design: exhaustive TLC, single producer (all cfgs x adds x timer fires x removals / closes)
         f1 = ex.submit(c.tlc_exhaustive, 'ChanWriter', 'ChanWriter', 'quick.cfg' if quick else 'thorough.cfg', workers=4, timeout=3000)
         #    two producers, Add = GetWriter + WAdd, every property except NoOrphanFlush (which is the known window)
@@ -89,12 +92,25 @@ def c13(c):
         f3 = ex.submit(c.tlc, 'ChanWriter', 'ChanWriter', 'race.cfg', workers=1, timeout=600, expect_violation=True)
         # 2. spec -> code: behaviours for the replay
         f4 = ex.submit(c.tlc, 'ChanWriter', 'ChanWriterSim', 'sim.cfg', simulate=200 if quick else 3000, depth=18, timeout=3000)
+        #    the writer under the subscription that feeds it (generation tags; unsubscribe = two delWriter sites with a
+        #    resubscribe possible in between): clean as coded, and the witness with the first site removed
+        f5 = ex.submit(c.tlc_exhaustive, 'ChanWriter', 'ChanWriterSub', 'gen.cfg' if quick else 'gen_thorough.cfg', workers=2, timeout=3000)
+        f6 = ex.submit(c.tlc, 'ChanWriter', 'ChanWriterSub', 'gen_witness.cfg', workers=1, timeout=600, expect_violation=True)
         r = f1.result()
         c.log('TLC exhaustive (atomic Add): %d distinct / %d generated, depth %d' % (r['distinct'], r['states'], r['depth']))
         r = f2.result()
         c.log('TLC exhaustive (split Add, 2 producers): %d distinct / %d generated, depth %d' % (r['distinct'], r['states'], r['depth']))
         w = f3.result()
         s = f4.result()
+        r = f5.result()
+        c.log('TLC exhaustive (subscription generations, unsubscribe in two steps, resubscribe): %d distinct / %d generated, depth %d' % (r['distinct'], r['states'], r['depth']))
+        gw = f6.result()
+    if gw['ok']:
+        c.notes.append('gen_witness.cfg: TLC found no counterexample to GenBracket without the first delWriter site')
+    else:
+        gwit = _error_trace(gw['out'])
+        c.cov['generation_witness'] = [st['step'].get('act') for st in gwit[1:]]
+        c.log('TLC witness for the resubscribe window without the early delWriter: %s' % c.cov['generation_witness'])
     witness = []
     if w['ok']:
         c.notes.append('race.cfg: TLC found no counterexample to NoOrphanFlush (the model no longer contains the delWriter window)')
@@ -173,7 +189,7 @@ def c13(c):
                      'perChannelWriter with MaxDelay 30 ms (retried with 200 ms / 1 s when a step disagrees), the model\'s TimerFire = waiting for the real flush; '
                      'non-trivial = completed behaviour with a batch of >= 2 items or a discard of buffered items, distinct by (cfg, steps); '
                      'traces: 2 adders + unsubscriber + closer, seeded, validated by TLC against ChanWriterTrace (non-trivial = has a batch of >= 2 items); '
-                     'client level: 2 subscription kinds x (plain unsubscribe | unsubscribe inside the broadcast window)')
+                     'client level: 2 subscription kinds x (plain unsubscribe | unsubscribe inside the broadcast window | resubscribe inside a server-side unsubscribe parked at Broker.PublishLeave with a publication still buffered)')
     c.assumptions += ['one channel per perChannelWriter instance (the writers map is keyed by channel, writers share nothing)',
                       'the ChannelBatchConfig of a channel does not change between Adds',
                       'timer goroutines are scheduled within 3 s of their deadline (a later flush is reported as timer-flush-missing)',
